@@ -355,7 +355,8 @@ def run_incarnation(sc, broker, inc, t0, crash_at, pending_msgs):
             base_run_once()
         lp._run_once = run_once_crash
     try:
-        lp.run_until_complete(main())
+        with simloop.guard_blocking():
+            lp.run_until_complete(main())
     except CrashNow:
         state['status'] = 'crashed'
     except simloop.Deadlock:
